@@ -583,8 +583,8 @@ class WFG8(WFG):
         result = [random.uniform(0.0, 1.0) for _ in range(self.k)] + [0.0]*self.l
 
         for i in range(self.k, self.nvars):
-            w = [1.0]*(self.nvars)
-            u = _r_sum(result, w)
+            w = [1.0]*i
+            u = _r_sum(result[:i], w)
             tmp1 = abs(math.floor(0.5 - u) + 0.98 / 49.98)
             tmp2 = 0.02 + 49.98 * (0.98 / 49.98 - (1.0 - 2.0*u) * tmp1)
             result[i] = math.pow(0.35, math.pow(tmp2, -1.0))
